@@ -11,6 +11,9 @@ if os.environ.get('PYTHONHASHSEED') is None:
     os.execv(sys.executable, [sys.executable] + sys.argv)
 sys.path.insert(0, VERIF)
 sys.path.insert(0, REPO)
+import faulthandler
+import signal
+faulthandler.register(signal.SIGUSR1, all_threads=True)
 
 
 def main(argv):
